@@ -158,6 +158,11 @@ def configs(tier, seed):
                                  max_offsets=6)))
         out.append(('ra/%s/complex' % mode, dict(kind='ra', mode=mode, direction='forward', old=[3], new=[5],
                                                    dtype='complex128')))
+        for direction, o_, n_ in (('forward', [3], [6]), ('adjoint', [6], [3])):
+            out.append(('ra/%s/%s/mode-name-capitalised' % (mode, direction),
+                        dict(kind='ra', mode=mode, direction=direction, old=o_, new=n_, spell='upper')))
+        out.append(('op/%s/custom-constant-weighting' % mode, dict(kind='op', mode=mode, direction='forward', old=[3],
+                                                                   new=[5], weighting=3.0)))
         out.append(('ra/%s/complex-adj' % mode, dict(kind='ra', mode=mode, direction='adjoint', old=[5], new=[3],
                                                        dtype='complex128')))
         out.append(('ra/%s/axes+out' % mode, dict(kind='ra-out', mode=mode, direction='forward', old=[3, 2],
@@ -316,7 +321,8 @@ def _anylen(ctx, mode, direction, regime):
     ctx.eq('rule-at-any-position', got, ref + bump)
 
 
-def case(ctx, kind, mode, direction, old=None, new=None, dtype='float64', max_offsets=None, regime=None):
+def case(ctx, kind, mode, direction, old=None, new=None, dtype='float64', max_offsets=None, regime=None, spell=None,
+         weighting=None):
     if kind == 'anylen':
         return _anylen(ctx, mode, direction, regime)
     old, new = tuple(old), tuple(new)
@@ -326,6 +332,11 @@ def case(ctx, kind, mode, direction, old=None, new=None, dtype='float64', max_of
         step = len(offs) / float(max_offsets)
         offs = [offs[int(i * step)] for i in range(max_offsets)]
     bump = 1 if ctx.canary else 0
+    given_mode = mode
+    if spell == 'upper':
+        # the mode name is accepted case-insensitively (it is lower-cased on entry)
+        given_mode = {'constant': 'Constant', 'periodic': 'PERIODIC', 'symmetric': 'Symmetric', 'order0': 'Order0',
+                      'order1': 'ORDER1'}[mode]
     if kind in ('ra', 'ra-out'):
         for oi, off in enumerate(offs):
             tag = 'off=%s' % ','.join(map(str, off))
@@ -349,7 +360,7 @@ def case(ctx, kind, mode, direction, old=None, new=None, dtype='float64', max_of
             if bump:
                 ref = ref + 1
             if kind == 'ra':
-                res = numerics.resize_array(a, new, offset=off, pad_mode=mode, pad_const=c, direction=direction)
+                res = numerics.resize_array(a, new, offset=off, pad_mode=given_mode, pad_const=c, direction=direction)
                 ctx.eq('rule/' + tag, res, ref)
                 ctx.eq('input-unchanged/' + tag, a, pre)
                 ctx.fact('shape/' + tag, tuple(res.shape) == new)
@@ -368,7 +379,8 @@ def case(ctx, kind, mode, direction, old=None, new=None, dtype='float64', max_of
 
     # ---- ResizingOperator on a discretized space with cell sides 1/2 (and 1/4)
     sides = [0.5, 0.25][:nd]
-    space = odl.uniform_discr([0.0] * nd, [n * s for n, s in zip(old, sides)], old)
+    space = odl.uniform_discr([0.0] * nd, [n * s for n, s in zip(old, sides)], old) if weighting is None else \
+        odl.uniform_discr([0.0] * nd, [n * s for n, s in zip(old, sides)], old, weighting=weighting)
     # default offset (none given): the operator's own offset must describe where the domain sits in the range
     if all(m >= n for n, m in zip(old, new)):
         opd = odl.ResizingOperator(space, ran_shp=new, pad_mode=mode)
@@ -428,6 +440,11 @@ def case(ctx, kind, mode, direction, old=None, new=None, dtype='float64', max_of
                  'range [%s, %s] expected [%s, %s] on growing axes' % (op.range.min_pt, op.range.max_pt,
                                                                       exp_min, exp_max))
         ctx.fact('range-shape/' + tag, tuple(op.range.shape) == new)
+        # the range inherits the weighting of the domain (same constant), so the adjoint identity holds in the
+        # two spaces' own inner products also for a user-defined weighting
+        ctx.fact('range-weighting=domain-weighting/' + tag,
+                 getattr(op.range.weighting, 'const', None) == getattr(space.weighting, 'const', None),
+                 'range %r domain %r' % (op.range.weighting, space.weighting))
         x = ctx.element(space, 'x%d' % oi)
         pre = ctx.snapshot(x).reshape(old)
         if not ok:
